@@ -126,7 +126,11 @@ func (r *BinReader) ReadArray(t any, maxSize ...int) {
 	}
 
 	l := int(lu)
-	if rl := r.Len(); rl >= 0 && l > rl {
+	decType := elemType
+	if !isPtr {
+		decType = reflect.PointerTo(elemType)
+	}
+	if rl := r.Len(); rl >= 0 && l > rl && decType.Implements(reflect.TypeFor[Decodable]()) {
 		// Every element takes at least one byte, don't allocate for more.
 		r.Err = fmt.Errorf("array is too big (%d) for the data left (%d)", l, rl)
 		return
